@@ -674,6 +674,9 @@ def c18_prop():
         H(ONESHOT_BC, "hist_c18_n5", "hold", replay=("oneshot_bc_hist_noop", 0), mask=P(18), est_s=100, bounds="E-HIST oneshot-broadcast N=5", **st),
         H(STATE, "hist_c18_n5", "hold", replay=("state_hist_noop", 0), mask=P(18), est_s=200, bounds="E-HIST state-broadcast N=5", **st),
         H(TIMER, "hist_c18_stub_k3_drop_a4", "hold", replay=("timer_hist_noop", 4 | (1 << 11)), mask=P(18), est_s=300, est_gb=3, timeout=1500, bounds="E-HIST timer 4 operations {poll, drop, advance}", **st),
+        H(MPMC, "hist_c18_c1_sr_p3_n5", "hold", replay=("mpmc_hist_noop", mpmc_cfg(1, "sr", 3)), mask=P(18), est_s=200, est_gb=4,
+          bounds="E-HIST mpmc capacity 1, both send futures polled first (one stored, one parked), then 3 operations: reaches 'a receive frees "
+                 "the slot and the parked sender's value is moved in'", **st),
         H(MPMC, "hist_c18_c1_sr_p5_n5", "hold", replay=("mpmc_hist_noop", mpmc_cfg(1, "sr", 5)), mask=P(18), est_s=300, est_gb=4, bounds="E-HIST mpmc capacity 1", **st),
         H(MPMC, "hist_c18_c0_cl_p3_n5", "hold", replay=("mpmc_hist_noop", mpmc_cfg(0, "cl", 3)), mask=P(18), est_s=300, est_gb=4, bounds="E-HIST mpmc capacity 0", **st),
         H(MPMC, "hist_c18_c2_tr_p0_n4", "hold", replay=("mpmc_hist_noop", mpmc_cfg(2, "tr", 0)), mask=P(18), est_s=300, est_gb=4, bounds="E-HIST mpmc capacity 2", **st),
